@@ -4,6 +4,8 @@ import Bmc.Proofs.C03
 import Bmc.Lemmas.HandshakeLive
 import Bmc.Lemmas.ResponseAccepted
 import Bmc.Lemmas.BmcSessionLive
+import Bmc.Lemmas.HandshakeLoss
+import Bmc.Lemmas.TruncatedReply
 import Bmc.Crypto.Toy
 /-! # C01 — session establishment agrees on keys with every conforming BMC (property theorems only)
 
@@ -208,6 +210,31 @@ example :
       [List.replicate 16 3] [.reply (responseDatagram Crypto.toy ⟨7, 9, 1, [1], List.replicate 16 0⟩ { fn := 6, cmd := 1 } 0
         [0x20, 1, 2, 3, 2, 0xbf, 0, 0, 0, 0, 0] 5 (List.replicate 16 4))]).2.2 = .ok 0 [0x20, 1, 2, 3, 2, 0xbf, 0, 0, 0, 0, 0] := by
   decide +kernel
+
+-- liveness under loss ---------------------------------------------------------------------------------------------------
+
+/-- LIVENESS UNDER LOSS: the handshake with the conforming BMC still succeeds — same session, same keys — when any number
+    of replies are lost, or arrive truncated / garbled so that they do not decode down to a session wrapper, before each
+    of the BMC's three replies (the library retransmits; C10 `handshake_payload_retries` says what) -/
+theorem handshake_succeeds_despite_loss (C : Ops) (o : Opts) (rm : Bytes) (b : Spec.BmcSide) (h : HashAlg)
+    (hauth : authHash o.auth = some h) (hinteg : o.integ = 1 ∨ o.integ = 2 ∨ o.integ = 4) (hconf : o.conf = 1)
+    (huser : o.user.length ≤ 16) (hpriv : o.priv.toNat < 16)
+    (hb : b.wf) (hpass : b.kuid = o.pass) (hkg : b.kg = o.kg)
+    (hfit : ∀ k m, (C.hmac h k m).length + 40 < 65536)
+    (j1 j2 j3 tail : List Outcome) (h1 : ∀ x ∈ j1, Skipped x) (h2 : ∀ x ∈ j2, Skipped x) (h3 : ∀ x ∈ j3, Skipped x) :
+    (newSession C o rm (j1 ++ .reply (b.openSessionReply (received o rm)) :: (j2 ++ .reply (b.rakp2Reply C h (received o rm)) ::
+        (j3 ++ .reply (b.rakp4Reply C h (received o rm)) :: tail)))).2 =
+      .ok 1 b.sidc o.auth o.integ o.conf (b.sik C h (received o rm)) (b.k1 C h (received o rm)) (b.k2 C h (received o rm)) := by
+  obtain ⟨f2, f4⟩ := fits_of_bound C h hfit b.kuid (b.sik C h (received o rm)) (b.exchange (received o rm))
+  rw [newSession_skips C o rm j1 j2 j3 _ _ _ tail h1 h2 h3 (open_not_retry o rm b) (rakp2_not_retry C o rm b hb h f2)
+    (rakp4_not_retry C o rm b h f4)]
+  exact keys_agree C o rm b h hauth hinteg hconf huser hpriv hb hpass hkg hfit
+
+/-- lost replies and truncated replies are among the skipped outcomes (non-vacuity of `Skipped`) -/
+theorem lost_and_truncated_are_skipped (ptype : UInt8) (hpt : ptype.toNat < 64) (hoem : ptype ≠ 2) (payload : Bytes)
+    (hlen : payload.length < 65536) (n : Nat) (hn : n < (Spec.sessionless ptype payload).length) :
+    Skipped .lost ∧ Skipped (.reply ((Spec.sessionless ptype payload).take n)) :=
+  ⟨Or.inl rfl, Or.inr ⟨_, rfl, truncated_setup_reply_is_retry ptype hpt hoem payload hlen n hn⟩⟩
 
 -- console ∥ conforming BMC, command after command -----------------------------------------------------------------------
 open Bmc.Spec Bmc.Proofs.C03 in
